@@ -326,7 +326,7 @@ def satDissat (c : SatCfg) : Ms → SatDissat
     let sub := (satDissat c x).sat
     ⟨Sat.push0, { sub with stack := Wit.combine sub.stack (.stack [.pushOne]) }⟩
   | .verify x => ⟨Sat.IMPOSSIBLE, (satDissat c x).sat⟩
-  | .nonZero x => ⟨Sat.IMPOSSIBLE, (satDissat c x).sat⟩
+  | .nonZero x => ⟨Sat.push0, (satDissat c x).sat⟩
   | .andB l r =>
     let l := satDissat c l; let r := satDissat c r
     ⟨l.dissat.concatenateRev r.dissat, l.sat.concatenateRev r.sat⟩
